@@ -68,6 +68,13 @@ def gen_cases(ctx):
         nodes = rng.sample(NAMES, n)
         key = rng.choice(["key%d" % rng.randrange(10000), b"k%d" % rng.randrange(100), rng.randrange(1000)])
         cases.append(("murmur", nodes, key, 0))
+    # keys up to the 250-byte limit and long socket paths: the scored string '<node>-<key>' runs past 256, 512 characters
+    long_nodes = ["/var/run/memcached/" + "shard-%d-" % i + "x" * (90 + 40 * i) + ".sock" for i in range(3)]
+    for i in range(12 if ctx.quick else 60):
+        ln = rng.choice([200, 230, 239, 240, 241, 243, 249, 250])
+        key = "".join(rng.choice("abcdefghijklmnopqrstuvwxyz0123456789:_") for _ in range(ln))
+        nodes = rng.sample(NAMES, rng.randrange(2, 6)) if i % 2 else rng.sample(NAMES[:4] + long_nodes, rng.randrange(2, 6))
+        cases.append(("murmur", nodes, key if i % 4 else key.encode(), rng.choice([0, 0, 7])))
     # table-driven hash functions with forced ties
     for _ in range(300 if ctx.quick else 6000):
         n = rng.randrange(1, 7)
